@@ -204,7 +204,10 @@ def execute_concurrent_async(
 
     # Execute concurrently
     try:
-        executor.execute(concurrency=concurrency, fail_fast=raise_on_first_error)
+        results = executor.execute(concurrency=concurrency, fail_fast=raise_on_first_error)
+        if not results:
+            # nothing was executed, so no completion callback will ever set the future
+            future.set_result(results)
     except Exception as e:
         future.set_exception(e)
 
